@@ -570,6 +570,11 @@ def actuate_door(
 
     position = state.agent.front()
 
+    # no door beyond the grid (NOTE: negative indices would wrap around, and
+    # too large indices would raise)
+    if not state.grid.area.contains(position):
+        return 0.0
+
     door = state.grid[position]
     if not isinstance(door, Door):
         return 0.0
